@@ -11,7 +11,7 @@ EINVAL = 22
 MUTATORS = ['mkdir', 'mknod', 'create', 'symlink', 'link', 'unlink', 'rmdir', 'rename_old', 'rename_new']
 
 def adversarial_names(rng, n_random):
-    pool = [b'.', b'..', b'a/b', b'../x', b'/', b'', b'x' * 255, b'y' * 256, b'...', b'.a', b'a.', b'..a', b'a..', b'. ', b' .',
+    pool = [b'.', b'..', b'..data', b'.. ', b'..a', b'a/b', b'../x', b'/', b'', b'x' * 255, b'y' * 256, b'...', b'.a', b'a.', b'..a', b'a..', b'. ', b' .',
             b'./', b'/.', b'../', b'/..', b'a/', b'/a', b'//', b'a//b', b'.\\', b'..\\', b'\\', b'a\\b', b'\xff', b'\xc0\xaf', b'.\xc0\xaf',
             b'%2e%2e', b'%2f', b'..%2f', b'\x2e\x2e', b'a\x00/b', b'..\x00x', b'.\x00', b'/\x00', b'ok', b'ok2', b'user.x', b'\x01', b'a b',
             b'\xe2\x88\x95', b'\xef\xbc\x8f', b'..;', b'. .', b'.' * 3 + b'/', b'x' * 254 + b'/', b'x' * 253 + b'/.']
@@ -73,7 +73,7 @@ def gen_history(rng, tree, R, abs_sentinel, n_ops, k=0):
     A = abs_sentinel.encode()
     inside_names = [b'f', b'd', b'g', b'dd', b'hl', b'rel', b'abs', b'reldir', b'absdir', b'up', b'upup', b'chain', b'self', b'deep', b'fifo',
                     b'n1', b'n2', b'n3', b'ls1', b'ls2', b'dev']
-    adv = [b'.', b'..', b'a/b', b'../x', b'/', b'', b'x' * 255, b'y' * 256, b'../a', b'd/g', b'd/..', b'rel/', b'./f', b'../export/f',
+    adv = [b'.', b'..', b'..a', b'...', b'..data', b'.. ', b'a/b', b'../x', b'/', b'', b'x' * 255, b'y' * 256, b'../a', b'd/g', b'd/..', b'rel/', b'./f', b'../export/f',
            b'..\x00', b'reldir/inner', A + b'/a']
     ops = []; ni = 1; nh = 0
     def nm(): return rng.choice(inside_names) if rng.random() < 0.7 else rng.choice(adv)
@@ -96,6 +96,13 @@ def gen_history(rng, tree, R, abs_sentinel, n_ops, k=0):
         ops.append({'op': 'lookup', 'p': ni - 1, 'name': b'..'}); ni += 1
         ops.append({'op': 'lookup', 'p': ni - 1, 'name': b'a'}); ni += 1
         ops.append({'op': 'lookup', 'p': 0, 'name': b'..'}); ni += 1
+        # ordinary names that merely start with "..": only the exact ".." is rewritten at the root
+        for nm_ in (b'..a', b'..data'):
+            ops.append({'op': 'lookup', 'p': 0, 'name': nm_}); ni += 1
+            ops.append({'op': 'mkdir', 'p': 0, 'name': nm_, 'mode': 0o755, 'umask': 0, 'uid': 0, 'gid': 0}); ni += 1
+            ops.append({'op': 'lookup', 'p': 0, 'name': nm_}); ni += 1
+            ops.append({'op': 'lookup', 'p': ni - 1, 'name': b'..'}); ni += 1
+            ops.append({'op': 'rmdir', 'p': 0, 'name': nm_})
     root_forget_walk()
     # every name-taking operation applied to a name that IS a symlink to an outside object (existing file, directory,
     # dangling path; pre-existing or made through SYMLINK), with the open flags rotated over the histories
@@ -384,6 +391,7 @@ def run_check(tier, seed):
                 # (5) the model on the same history (standalone runs; inode_file_handles only changes how inodes are reopened)
                 if mode == 'pt' and coq_ok:
                     mops = [(o, r) for o, r in zip(hh['ops'], res['ops']) if MODELLED(o)]
+                    mops = cut_at_stale(mops, hh['cfg'])
                     ec = effective_cfg(hh['cfg'])
                     obs = '[' + ';\n'.join('(%s, %s)' % (reply_coq(o, r['r']), creds_coq(r['creds'])) for o, r in mops) + ']'
                     reqs = '[' + ';\n'.join(op_coq(o) for o, r in mops) + ']'
